@@ -645,9 +645,15 @@ func finish(id string, pc propCfg, tier string, seed uint64, rt string, out *out
 		"wall_s":      wall.Seconds(),
 		"violations":  len(out.violations),
 	}
-	_ = os.MkdirAll(filepath.Join(rt, "evidence"), 0o755)
+	evDir := filepath.Join(rt, "evidence")
+	if alt := os.Getenv("VERIF_REPO"); alt != "" && alt != "/repo" {
+		// sensitivity experiments against a scratch worktree never touch the
+		// evidence of the registered checks
+		evDir = filepath.Join(rt, ".work", "evidence-alt")
+	}
+	_ = os.MkdirAll(evDir, 0o755)
 	eb, _ := json.MarshalIndent(ev, "", " ")
-	_ = os.WriteFile(filepath.Join(rt, "evidence", id+".json"), append(eb, '\n'), 0o644)
+	_ = os.WriteFile(filepath.Join(evDir, id+".json"), append(eb, '\n'), 0o644)
 
 	// ---- report ----
 	kids := make([]string, 0, len(out.known))
